@@ -61,13 +61,15 @@ class CardMonitor:
             ctx.check(not missing and not extra, 'card-lost-or-foreign',
                       lambda: f'after {type(op).__name__}: missing {missing} extra {extra}')
         name = type(op).__name__
-        reserve = len(st.burn_cards) + len(st.mucked_cards) + sum(len(d) for d in st.discarded_cards)
+        # known cards only: unknown placeholders ('??') are not tracked individually
+        reserve = (len([c for c in st.burn_cards if c]) + len([c for c in st.mucked_cards if c])
+                   + sum(len([c for c in d if c]) for d in st.discarded_cards))
         if name in ('CardBurning', 'HoleDealing', 'BoardDealing') and self.prev_deck is not None:
             need = 1 if name == 'CardBurning' else len(op.cards)
-            grew = 1 if name == 'CardBurning' else 0
+            grew = 1 if (name == 'CardBurning' and op.card) else 0
             if reserve < self.prev_reserve + grew:
                 # reserves were recycled into the deck: only allowed when the deck was short
-                ctx.check(self.prev_deck < need or not self.exact, 'replenished-although-deck-not-exhausted',
+                ctx.check(self.prev_deck < need, 'replenished-although-deck-not-exhausted',
                           lambda: f'{name}: deck had {self.prev_deck}, needed {need}')
                 ctx.cover('replenished')
         if name == 'Folding' or name == 'HandKilling':
@@ -85,6 +87,7 @@ class DealMonitor:
         self.ctx = ctx
         self.street = None
         self.board_total = 0        # community cards every board must hold after the streets dealt so far
+        self.fallback_seen = False
         self.reset()
 
     def reset(self) -> None:
@@ -191,6 +194,7 @@ class DealMonitor:
                                       lambda: f'player {i} card {card!r}: {was} -> {status}')
             ctx.cover('draw')
         elif self.fallback and k:
+            self.fallback_seen = True
             ctx.check(not self.hole, 'hole-cards-dealt-although-deck-cannot-cover')
             ctx.check(self.board == (s.board_dealing_count + k) * self.boards, 'fallback-board-count',
                       lambda: f'{self.board}')
@@ -219,14 +223,17 @@ def dealing_pending(st: Any) -> bool:
 def h_deal(ctx: Any, code: str, n: int, sym_decisions: int = 2, manual: str = 'counts', boards: int = 1,
            stacks: Any = None, streets: str = '', explicit: bool = False, deck: str = 'identity',
            mode: str = 'T', draw_masks: bool = True, which: str = 'both', mask_budget: int = 3,
-           fixed_mask: int = 0, count_budget: int = 4, partial_show: bool = False) -> None:
+           fixed_mask: int = 0, count_budget: int = 4, partial_show: bool = False, runouts: int = 0,
+           explicit_dealee: bool = False, warn: str = '') -> None:
     C.native_hands()
     C.set_deck_order(deck)
-    warnings.simplefilter('error' if explicit else 'ignore')
+    warnings.simplefilter(warn or ('error' if explicit else 'ignore'))
     dealing = (Automation.CARD_BURNING, Automation.HOLE_DEALING, Automation.BOARD_DEALING)
     autos = tuple(a for a in Automation if manual == 'auto' or a not in dealing)
     if explicit or partial_show:
         autos = tuple(a for a in autos if a != Automation.HOLE_CARDS_SHOWING_OR_MUCKING)
+    if runouts:
+        autos = tuple(a for a in autos if a != Automation.RUNOUT_COUNT_SELECTION)
     cfg: dict = dict(n=n, stacks=tuple(stacks or (200,) * n), automations=autos, antes=1,
                      mode=Mode.TOURNAMENT if mode == 'T' else Mode.CASH_GAME, starting_board_count=boards)
     if C.is_stud(code):
@@ -245,7 +252,7 @@ def h_deal(ctx: Any, code: str, n: int, sym_decisions: int = 2, manual: str = 'c
         )
     cm = CardMonitor(ctx, exact=not explicit)
     dm = DealMonitor(ctx)
-    dm.one_at_a_time = manual not in ('counts', 'late-counts')
+    dm.one_at_a_time = manual not in ('counts', 'late-counts') and not explicit_dealee
 
     def mon(state: Any, op: Any) -> None:
         if which in ('both', 'cards'):
@@ -296,13 +303,25 @@ def h_deal(ctx: Any, code: str, n: int, sym_decisions: int = 2, manual: str = 'c
                     left = len(st.hole_dealing_statuses[i])
                     if explicit:
                         # the last seat always gets engine-chosen (known) cards, so somebody can show
-                        kind = ctx.choice(f'hk{guard}', 3) if i != n - 1 else 0
+                        kind = ctx.choice(f'hk{guard}', 4 if warn == 'ignore' else 3) if i != n - 1 else 0
                         if kind == 0:
                             C.call(ctx, st.deal_hole)
                         elif kind == 1:
                             C.call(ctx, st.deal_hole, '??')
+                        elif kind == 3 and any(bool(c) for c in st.burn_cards):
+                            # a known card taken out of the burn pile (only warned about): it must MOVE
+                            C.call(ctx, st.deal_hole, ([c for c in st.burn_cards if c][-1],))
+                            ctx.cover('burnt-card-dealt')
                         else:
                             C.call(ctx, st.deal_hole, (st.deck_cards[-1],))
+                    elif explicit_dealee:
+                        # the dealer serves a NAMED player (any player still owed cards, in any order)
+                        owed = [j for j in range(n) if st.hole_dealing_statuses[j]]
+                        j = owed[ctx.choice(f'to{guard}', len(owed))]
+                        was = len(st.hole_cards[j])
+                        op = C.call(ctx, st.deal_hole, None, j)
+                        ctx.check(op.player_index == j and len(st.hole_cards[j]) == was + 1, 'card-went-to-another-player',
+                                  lambda: f'named {j}, record says {op.player_index}')
                     elif manual == 'counts' and left > 1 and budget['count'] > 0:
                         budget['count'] -= 1
                         C.call(ctx, st.deal_hole, 1 + ctx.choice(f'hc{guard}', left))
@@ -322,6 +341,10 @@ def h_deal(ctx: Any, code: str, n: int, sym_decisions: int = 2, manual: str = 'c
                 continue
             if dm.street is not None:
                 dm.end(st)
+            if runouts and st.can_select_runout_count():
+                C.call(ctx, st.select_runout_count, runouts)
+                ctx.cover('runouts-selected')
+                continue
             if partial_show and st.showdown_index is not None:
                 i = st.showdown_index
                 k = ctx.choice(f'show{guard}', 3)
@@ -358,6 +381,15 @@ def h_deal(ctx: Any, code: str, n: int, sym_decisions: int = 2, manual: str = 'c
                 ctx.fail('stuck', lambda: f'{[type(o).__name__ for o in st.operations[-5:]]}')
         if dm.street is not None:
             dm.end(st)
+        if which in ('both', 'deal') and sum(1 for x in st.statuses if x) > 1:
+            # at the end every board (all run-outs included) holds all its community cards
+            total = sum(x.board_dealing_count for x in st.streets)
+            for b in range(st.board_count):
+                nb = len(tuple(st.get_board_cards(b)))
+                ctx.check(nb == total or dm.fallback_seen, 'incomplete-board-at-the-end',
+                          lambda: f'board {b} of {st.board_count}: {nb} cards, prescribed {total}')
+            ctx.check(st.board_count == boards * max(1, runouts if 'runouts-selected' in ctx.covered else 1),
+                      'board-count', lambda: f'{st.board_count}')
         ctx.cover('done')
     finally:
         C.set_monitor(None)
@@ -403,6 +435,12 @@ JOBS = [
     ('mixed-draw/n2', dict(code='NT', n=2, sym_decisions=1, manual='one', streets='mixed-draw')),
     ('NT/n2/allin/partial-show', dict(code='NT', n=2, sym_decisions=0, manual='one', stacks=(3, 3), mode='C',
                                       partial_show=True)),
+    ('NT/n2/explicit/warnings-ignored', dict(code='NT', n=2, sym_decisions=0, manual='one', explicit=True, mode='C',
+                                             warn='ignore')),
+    ('NT/n2/allin/2-runouts', dict(code='NT', n=2, sym_decisions=0, manual='one', stacks=(3, 3), mode='C', runouts=2)),
+    ('NT/n3/flop-allin/3-runouts', dict(code='NT', n=3, sym_decisions=0, manual='auto', stacks=(5, 5, 5), mode='C', runouts=3)),
+    ('F7S/n2/named-dealee', dict(code='F7S', n=2, sym_decisions=0, manual='one', explicit_dealee=True)),
+    ('NT/n3/named-dealee', dict(code='NT', n=3, sym_decisions=0, manual='one', explicit_dealee=True)),
     ('NT/n2/explicit', dict(code='NT', n=2, sym_decisions=0, manual='one', explicit=True, mode='C')),
 ]
 
@@ -413,6 +451,8 @@ def _jobs(tier: str, which: str) -> list[dict]:
     for name, p in JOBS:
         if which == 'deal' and p.get('explicit'):
             continue
+        if which == 'cards' and (p.get('runouts') or p.get('explicit_dealee')):
+            pass
         cover = ['done']
         if 'partial-show' in name:
             cover.append('partial-show')
